@@ -3,7 +3,8 @@ NOTES = ("All checks: /venv/bin/python -m harness.run <ID> --tier quick|thorough
          "REPID_SRC (default /repo) selects the source tree under test.")
 NOT_APPLICABLE = {}
 _MODEL = ("Trusted base: harness/vclock.py (virtual clock; datetime/time rebound inside repid.* modules), Hypothesis 6.168, "
-          "the oracle code in harness/checks; the host time zone is UTC unless a case draws another one (a generated dimension of the worker scenarios, broker histories and C05/C06/C12 cases).")
+          "the oracle code in harness/checks. Host dimensions are generated per case: time zone (UTC, fixed offsets, zones on daylight-saving time), "
+          "level of the 'repid' logger (default / DEBUG), message priorities, legal but unusual queue / actor / message names.")
 _SRV = (" Redis and RabbitMQ are in-process server models (harness/fredis.py, harness/famqp.py) written from the public "
         "command / protocol documentation; redis-py and aiormq wire encoding below the client API is not exercised.")
 _WORKER = ("Generated worker scenarios run by a real repid Worker on a deterministic virtual-time event loop against an independent "
@@ -16,7 +17,8 @@ CHECKS = [
           "Worker with the health server on a loopback port; histories of probes, malformed sends, early-opened connections, concurrent "
           "bursts, bursts of 130-300 connections that send nothing, a connection left idle until the worker stops, a consumer failure (in-memory, or a RabbitMQ server-side cancel "
           "whose restart is refused), a worker without actors, jobs and probes during a slow graceful shutdown; oracle 200/503/404 as of the moment the request is "
-          "sent, port open exactly while run() runs, jobs undisturbed.",
+          "sent, port open exactly while run() runs, jobs undisturbed. Protocol layer also: request targets of 12-5000 characters and a "
+          "CPU-time budget (2 s of process CPU time per request, the computation is interrupted): data_received must not block the loop.",
   "note": "Trusted base: Hypothesis, atheris 3.1 (bytecode instrumentation of the protocol methods), the oracle in harness/checks/c20.py. Socket "
           "layer uses real time and loopback sockets; client-side timeouts are counted inconclusive."},
  {"property_id": "C01", "level": "fault_enumeration", "design_ref": "DESIGN.md §4 C01",
@@ -27,7 +29,7 @@ CHECKS = [
           "loop-step indices on a deterministic loop, so a failing interleaving replays exactly. Statistical over histories; the thorough "
           "tier additionally enumerates every cancellation step of every terminal call over a pool of pre-states (cancel-* sub-checks; sampled in "
           "quick). 'launch'/'collect' rounds keep several consume calls of different clients in flight at once under unequal simulated "
-          "latencies; consumers are paused and resumed in between. long-lived-*: a consumer works through 60-1040 messages beside a "
+          "latencies; consumers are paused and resumed (or finished while paused) in between. long-lived-*: a consumer works through 60-1040 messages beside a "
           "message it once took and returned and that another consumer of the same process now holds, then finishes. A directed block puts "
           "several delayed messages on one due instant and consumes them one by one.",
   "note": _MODEL + _SRV + " One open known finding (D9: RabbitMQ requeue is ack+publish, not atomic) is excluded by signature."},
@@ -62,7 +64,7 @@ CHECKS = [
           "(next_execution_time, delay_until, Job.deferred_until), arrival vs consumer-start interleavings; a consumer consumes continuously "
           "for a 40 s virtual horizon. Oracles: never handed to a NORMAL consumer before T-1ms; delivered within a per-broker bound after T; "
           "far-future messages stay delayed; visible through the DELAYED category only, reject keeps them delayed. 'never forgotten' is decided "
-          "as 'within the stated bound'. Also: Job.deferred_by forms, a topic-filtered consumer beside a run of foreign delayed messages, non-UTC host zones.",
+          "as 'within the stated bound'. Also: Job.deferred_by forms, a topic-filtered consumer beside a run of foreign delayed messages, non-UTC host zones (fixed and on daylight-saving time).",
   "note": _MODEL + _SRV + " Open known findings D19a/D19b (RabbitMQ head-of-line blocking of per-message TTL) are excluded by signature."},
  {"property_id": "C06", "level": "exploration", "design_ref": "DESIGN.md §4 C06",
   "technique": "property-based testing of reschedule arithmetic over generated iteration programmes (pinned clock) plus worker-level recurring scenarios on 3 brokers",
@@ -74,7 +76,8 @@ CHECKS = [
   "note": _MODEL + _SRV + " cron schedules are not exercised (croniter not installed)."},
  {"property_id": "C07", "level": "exploration", "design_ref": "DESIGN.md §4 C07",
   "technique": "round-trip and injectivity property-based testing of codecs and key encodings, plus end-to-end producer->broker->consumer->actor identity checks on 3 brokers",
-  "text": "decode(encode(x))==x over generated field combinations at the documented limits (100-year durations at microsecond precision, "
+  "text": "Names and ids are drawn from the alphabets the validators of the tree under test accept (computed from VALID_NAME / VALID_ID). "
+          "decode(encode(x))==x over generated field combinations at the documented limits (100-year durations at microsecond precision, "
           "tz-aware timestamps); Redis/AMQP name encodings round-trip and are injective over near-miss key pairs; end to end the consumed "
           "key/priority/payload/parameters equal what Job.enqueue() returned and the configured settings, and the actor's arguments equal an "
           "independent JSON normalisation (inline and bucket transport); a requeue with a new payload, a second job re-using the args_id "
@@ -125,7 +128,7 @@ CHECKS = [
   "text": "Interleavings of several consumers/clients are permuted by generated per-round-trip latencies on a deterministic loop; the holder "
           "map is maintained from hand-over/return events and every history ends by draining all consumers. Worker level: 2-3 workers on one "
           "queue, each succeeding job executed exactly once. bulk-*: 100-300 (mostly delayed, distinct due times) messages drained by 2-3 "
-          "concurrent consumers, each handed out exactly once. Half of the Redis / RabbitMQ histories end with every client dying and "
+          "concurrent consumers, each handed out exactly once. Redis maintenance runs under non-UTC host zones. Half of the Redis / RabbitMQ histories end with every client dying and "
           "a new one draining the queue: nothing acknowledged comes back. workers-stop-*: workers are stopped and replaced while jobs run; "
           "maintenance runs aimed at execution deadlines; pause/unpause of consumers; a single-client variant. Statistical over histories and latency vectors.",
   "note": _MODEL + _SRV + " Open known finding D24 (Redis maintenance reclaims messages of live consumers after the execution timeout) is excluded by signature."},
@@ -135,7 +138,7 @@ CHECKS = [
           "one; a returned message precedes everything enqueued after its return; nothing matching starves while the consumer polls; "
           "queue lengths cross Redis's fetch window of 10; a spinning broker call (step watchdog) is reported; foreign-run mode puts 10-30 "
           "foreign-topic messages ahead of own ones, with returns and a second consumer eating the run; pause mode pauses and resumes the "
-          "consumer while messages (some prefetched) wait; a third of the cases mix several priority levels in the queue; racing mode lets a second "
+          "consumer while messages (some prefetched) wait; a third of the cases mix several priority levels in the queue; message timestamps older than their enqueue instant; racing mode lets a second "
           "client change the Redis queue between the consumer's read and its transaction; bodies up to 100 kB; bulk enqueues of 60-150.",
   "note": _MODEL + _SRV + " Open known finding D20 (RabbitMQ foreign-topic head-of-line blocking under a small prefetch limit) is excluded by signature."},
  {"property_id": "C16", "level": "exploration", "design_ref": "DESIGN.md §4 C16",
@@ -162,13 +165,14 @@ CHECKS = [
           "evaluator over the current graph gives the expected value of every dependency parameter; overrides are applied between jobs; provider "
           "failure must follow the retry ladder without running the body; unsupported declarations must raise at declaration time. Several "
           "messages are resolved concurrently through shared Depends objects whose providers suspend; alias nodes are separate Depends "
-          "objects over one provider function, overridable on their own; providers may return exception objects.",
+          "objects over one provider function, overridable on their own; providers may return exception objects; dependency parameters of "
+          "providers may carry default values or be keyword-only.",
   "note": _MODEL + " In-memory broker only (dependency resolution is broker-independent)."},
  {"property_id": "C19", "level": "exploration", "design_ref": "DESIGN.md §4 C19",
   "technique": "property-based testing (Hypothesis) of pure functions against arithmetic oracles under a pinned clock",
   "text": "Generated search (tens of thousands of inputs per run, boundary classes constructed on purpose: exact period multiples ±1µs, "
           "now==expiry ±1µs, n above max_exponent, clipped results) against explicit arithmetic oracles. Cannot prove absence; the "
           "functions are small and pure, so boundary-directed generation is the right cost/assurance point. store-redis: buckets written through the Redis bucket broker (fresh, old timestamp, "
-          "re-stored) and read around timestamp+ttl on the server model; next: the message may carry an off-grid next_execution_time.",
+          "re-stored) and read around timestamp+ttl on the server model, under UTC and non-UTC host zones; next: the message may carry an off-grid next_execution_time.",
   "note": _MODEL + " max_exponent ≤ 10^4 by generator bound; cron not exercised (croniter absent)."},
 ]
